@@ -222,6 +222,8 @@ type docCase struct {
 	Value json.RawMessage `json:"value,omitempty"` // tagged value (generation direction)
 	Text  []int           `json:"text,omitempty"`  // document code points (parsing direction)
 	Note  string          `json:"note,omitempty"`
+	Bad   string          `json:"bad,omitempty"`   // expression of a value without JSON form
+	Plant string          `json:"plant,omitempty"` // statement that plants it into the dictionary 典
 }
 
 func replay(sub string, raw json.RawMessage) ([]h.Failure, error) {
@@ -241,6 +243,13 @@ func replay(sub string, raw json.RawMessage) ([]h.Failure, error) {
 	case "parse":
 		f, _ := checkParse(fromCps(c.Text))
 		return f, nil
+	case "unrepresentable":
+		var t tagged
+		if err := json.Unmarshal(c.Value, &t); err != nil {
+			return nil, err
+		}
+		v, _ := fromTagged(t)
+		return checkUnrepresentable(v, c.Bad, c.Plant), nil
 	}
 	return nil, fmt.Errorf("unknown sub-check %q", sub)
 }
@@ -510,6 +519,39 @@ func TestGenerate(t *testing.T) {
 		}
 		tv, _ := json.Marshal(toTagged(d))
 		h.R.Case(t, "generate", string(tv), docCase{Value: tv}, labels, (md >= 2 && mk) || esc, fails)
+	})
+}
+
+// values of the language that have no JSON form at all (methods, types, objects, exception
+// values), planted somewhere in an otherwise representable dictionary
+var badExprs = []string{"某法", "（新建狗）", "狗", "异常", "显示", "（新建异常：“m”）", "解析JSON"}
+var plants = []string{"典#“坏” = 坏", "典#“坏” = 【1，坏】", "典#“坏” = 【“里” = 【坏，2】】", "典#“坏” = 【【【“a” = 坏】】】", "以典（写入：“坏”、【“x” = 1，“y” = 坏】）"}
+
+func checkUnrepresentable(d zn.Value, bad, plant string) []h.Failure {
+	prog := "导入《@JSON》\n输入D\n如何某法？\n    输出1\n定义狗：\n    其名 = 1\n令典 = D\n令坏 = " + bad + "\n" + plant + "\n输出【（生成JSON：典）】\n拦截异常：\n    输出“caught”"
+	o := h.Run(prog, h.Opts{Inputs: map[string]r.Element{"D": zn.ToElem(d)}})
+	desc := fmt.Sprintf("dictionary %s with %s planted by %s", zn.Show(d), bad, plant)
+	switch o.Kind {
+	case h.KPanic:
+		return []h.Failure{{Sig: "unrepresentable/go-panic@" + o.PanicSite, Msg: desc + ": " + o.PanicMsg}}
+	case h.KBudget, h.KNil:
+		return []h.Failure{{Sig: "unrepresentable/" + o.Kind, Msg: desc}}
+	case h.KError:
+		return []h.Failure{{Sig: "unrepresentable/uncatchable-error", Msg: fmt.Sprintf("%s: the error escaped the 拦截异常 handler: %s", desc, o.Short())}}
+	}
+	if o.ValText != "caught" || o.ValType != "string" {
+		return []h.Failure{{Sig: "unrepresentable/accepted", Msg: fmt.Sprintf("%s: the value has no JSON form; expected a catchable exception, got %s", desc, o.Short())}}
+	}
+	return nil
+}
+
+func TestUnrepresentable(t *testing.T) {
+	rapid.Check(t, func(t *rapid.T) {
+		d := genDict(t, rapid.IntRange(0, 2).Draw(t, "depth"), false)
+		bad := rapid.SampledFrom(badExprs).Draw(t, "bad")
+		plant := rapid.SampledFrom(plants).Draw(t, "plant")
+		tv, _ := json.Marshal(toTagged(d))
+		h.R.Case(t, "unrepresentable", string(tv)+bad+plant, docCase{Value: tv, Bad: bad, Plant: plant}, []string{"no-json-form:" + bad}, plant != plants[0], checkUnrepresentable(d, bad, plant))
 	})
 }
 
